@@ -95,7 +95,7 @@ def f_flat(nmeth=2, small=False, args=False, third=False):
                     yield D([mdefs + [T("T0", b0), T("T1", b1)]])
 
 
-def f_chain(small=False):
+def f_chain(small=False, medium=False):
     """two-level call graphs: transactions call mid methods A/B (exclusive or not, with a control structure inside) which
     call leaves L/K; diamonds and shared mids included."""
     mid_bodies = lambda L, K: [[call(L)], [call(L, en="in")], [If([call(L)])], [If([call(L)], [call(K)], has_else=True)],
@@ -107,10 +107,10 @@ def f_chain(small=False):
          [If([call("A")], [call("A")], has_else=True)], [Sw(1, [(0, [call("A")]), (1, [call("A", en="in")])])]])
     for nxa, nxb, nxl in itertools.product([False, True], repeat=3):
         for ma in mid_bodies("L", "K"):
-            for mb in (mid_bodies("L", "K") if not small else [[call("L")], [call("K")]]):
+            for mb in (mid_bodies("L", "K") if not (small or medium) else [[call("L")], [call("K")]]):
                 defs = [M("L", nx=nxl), M("K"), M("A", ma, nx=nxa), M("B", mb, nx=nxb)]
                 for b0 in tb:
-                    for b1 in ([[call("A")], [call("B")], [call("L")]] if small else tb[:12]):
+                    for b1 in ([[call("A")], [call("B")], [call("L")]] if small else (tb[:6] if medium else tb[:12])):
                         yield D([defs + [T("T0", b0), T("T1", b1)]])
 
 
